@@ -182,6 +182,11 @@ def run_case(case):
     if case.get("mag", 1) != 1:
         x = x * x.dtype.type(case["mag"])       # 1e-8 / 1e+8: the transform is homogeneous
         sig += "|mag"
+    if "rs" in case and sum(case["rs"]) % 7 == 3:
+        # the same values stored in the other byte order (raw data read with '>c8' / '>f4'
+        # from a file written on another platform): still a complex64 / complex128 array
+        x = x.astype(x.dtype.newbyteorder())
+        sig += "|byteswapped"
     x0 = x.copy()
     tol = 1e-10 if dtype == np.complex128 else 2e-4
     kw = {}
@@ -233,7 +238,7 @@ def run_case(case):
                             "max diff %.3g" % float(np.max(np.abs(y2 - y))), wit,
                             mech="history-after-failure")
     checks += 1
-    if dtype.kind == "c" and y.dtype != dtype:
+    if dtype.kind == "c" and (y.dtype.kind != "c" or y.dtype.itemsize != dtype.itemsize):
         return violated(sig, "complex input %s came back as %s" % (dtype, y.dtype), wit,
                         mech="dtype")
     if not np.array_equal(x, x0):
